@@ -46,7 +46,7 @@ def gen(r, tier, i):
             'ops': ops, 'init_n': r.randint(0, 9), 'host': r.choice(['empty', 'generated']),
             'override': {'target': r.choice(['p0', 's', 'sub.q']), 'via': r.choice(['composer', 'process', 'merge', 'merge']),
                          'late': r.random() < 0.5},
-            'meta_overlap': r.random() < 0.5, 'shared_schema': r.random() < 0.4}
+            'meta_overlap': r.random() < 0.5, 'shared_schema': r.random() < 0.4, 'own_init': r.random() < 0.25}
 
 
 def classes():
@@ -65,6 +65,10 @@ def classes():
         def calculate_timestep(self, states):
             return self.parameters.get('ts', 1.0)
 
+        def initial_state(self, config=None):
+            # (some cases: the process has an initial state of its own)
+            return {'S': {'n': 50}} if self.parameters.get('own_init') else {}
+
         def next_update(self, timestep, states):
             return {'S': {'n': states['S']['n'] % 5 + self.parameters.get('inc', 1)}}
 
@@ -76,12 +80,12 @@ def classes():
             return {'S': {'m': states['S']['n'] * 3}}
 
     class C(Composer):
-        defaults = {'k': 2, 'nest': True, 'deriver': False, 'tag': '', 'shared': False}
+        defaults = {'k': 2, 'nest': True, 'deriver': False, 'tag': '', 'shared': False, 'own_init': False}
 
         def generate_processes(self, config):
             d = {'p%d' % i: P({'inc': i + 1, 'ts': 0.5 * (i + 1), 'shared': config['shared']}) for i in range(config['k'])}
             if config['nest']:
-                d['sub'] = {'q': P({'inc': 7, 'shared': config['shared']})}
+                d['sub'] = {'q': P({'inc': 7, 'shared': config['shared'], 'own_init': config.get('own_init')})}
             if config['deriver']:
                 d['drv'] = St()
             return d
@@ -160,7 +164,8 @@ def run(spec):
     from vivarium.core.composer import Composite, MetaComposer
     V = Viol()
     P, St, C = classes()
-    cfg = {'k': spec['k'], 'nest': spec['nest'], 'deriver': spec['deriver'], 'shared': bool(spec.get('shared_schema'))}
+    cfg = {'k': spec['k'], 'nest': spec['nest'], 'deriver': spec['deriver'], 'shared': bool(spec.get('shared_schema')),
+           'own_init': bool(spec.get('own_init'))}
     path = tuple(spec['path'])
     stats = {}
     try:
@@ -201,9 +206,20 @@ def run(spec):
         store = cs.generate_store({'initial_state': copy.deepcopy(init)})
         eb = Engine(store=store, display_info=False)
         eb.update(3)
-        V.check('entry_points_same_run', ea.emitter.get_data() == d1 and eb.emitter.get_data() == d1,
+        same_ab = ea.emitter.get_data() == d1 and eb.emitter.get_data() == d1
+        mech = None
+        if not same_ab and ea.emitter.get_data() == d1 and cfg['own_init']:
+            # Known finding F3: Composite.generate_store() also applies the processes' own initial_state(), the
+            # composite and parts entry points do not. Labelled only if that alone explains the difference.
+            cc = C(cfg).generate()
+            ec = Engine(composite=C(cfg).generate(), initial_state=cc.initial_state({'initial_state': copy.deepcopy(init)}),
+                        display_info=False)
+            ec.update(3)
+            if ec.emitter.get_data() == eb.emitter.get_data():
+                mech = 'store-entry-applies-process-initial-state'
+        V.check('entry_points_same_run', same_ab,
                 lambda: ('engines built from composite / parts / store emit different trajectories',
-                         _first_diff(d1, ea.emitter.get_data()), _first_diff(d1, eb.emitter.get_data())))
+                         _first_diff(d1, ea.emitter.get_data()), _first_diff(d1, eb.emitter.get_data())), mechanism=mech)
 
         # merge sequences
         T = C(cfg).generate()
